@@ -28,8 +28,11 @@ QUICK_BUDGET_S = 150
 THOROUGH_BUDGET_S = 900
 CHUNK = 50
 RULE = ("one run = one proxy instance in mode regular(CONNECT)/transparent/reverse https/reverse tls/secure-web-proxy with "
-        "options ssl_insecure x connection_strategy x trust (CA file | hashed directory | both | certifi default) x trusted "
-        "roots x http2 drawn per run; 1-3 client connections, each against an origin whose leaf realises one of 18 DNS "
+        "options ssl_insecure x connection_strategy x trust (CA file only | hashed c_rehash-style CA directory only | both, "
+        "possibly holding different roots | neither = default bundle; certifi.where() returns a sim-owned bundle with the "
+        "public sim roots P,Q that are in no configured file/directory) x trusted private roots (A | A,B | B) x http2 "
+        "drawn per run; chains lead to the private root A/B, to a public root P/Q or to the unrelated root X; "
+        "1-3 client connections, each against an origin whose leaf realises one of 18 DNS "
         "name cases (match, case, many, wildcard, wildcard too high/below/mid-label, 3 partial wildcards, CN only, CN + "
         "other SAN, mismatch, suffix/prefix confusion, e-mail/URI/IP-only SAN) or 6 IP cases (v4/v6 match, expanded "
         "form, other, IP in dNSName, CN only), crossed with the chain case (root, intermediate sent/missing, self-signed, "
@@ -49,9 +52,15 @@ COMPONENTS_STUB = ["TCP: simkit.net.SimNet (reliable ordered pipes, seeded segme
                    "PKI lays validity windows out around real time with margins of >= 3 days",
                    "origin and client: Python ssl over MemoryBIO (system OpenSSL 3.0, independent of the pyOpenSSL build "
                    "mitmproxy uses)",
-                   "simulated PKI written to /var/tmp/verif_pki_a/<utc-day>/ (deterministic Ed25519 keys; files are needed "
-                   "because ssl.load_cert_chain and mitmproxy's trust options take paths)"]
+                   "simulated PKI written to /verif/data/pki_a/<utc-day>/ (deterministic Ed25519 keys; files are needed "
+                   "because ssl.load_cert_chain and mitmproxy's trust options take paths)",
+                   "the default public CA bundle: certifi.where (as imported by mitmproxy.net.tls) returns a sim-owned "
+                   "PEM file with the public sim roots P and Q for the duration of a run (same path string in every run; "
+                   "the lru_cache of create_proxy_server_context is cleared at world start and after the run)"]
 ASSUMPTIONS = ["the identity to verify is the SNI mitmproxy sends to the origin, or the server address when no SNI is sent",
+               "'a configured trusted CA' = the roots in ssl_verify_upstream_trusted_ca and/or "
+               "ssl_verify_upstream_trusted_confdir when at least one of them is set (they are then the ONLY anchors); "
+               "the default bundle is the anchor set only when neither is set (option help texts)",
                "a wildcard is acceptable only as the complete left-most label standing for exactly one label, with at "
                "least two labels to its right (RFC 6125 6.4.3 as restricted by the statement)",
                "DNS names compare case-insensitively; IP SANs compare by address value",
@@ -66,7 +75,12 @@ ASSUMPTIONS = ["the identity to verify is the SNI mitmproxy sends to the origin,
 EXPECTED_PROBES = ["verdict_good", "verdict_bad", "rejected_name_mismatch", "rejected_unknown_ca", "rejected_expired",
                    "rejected_future", "rejected_self_signed", "rejected_intermediate_missing", "rejected_issuer_not_a_ca",
                    "rejected_intermediate_expired", "insecure_bad_accepted", "good_accepted", "trust_file", "trust_dir",
-                   "trust_both", "trust_certifi", "mode_regular", "mode_transparent", "mode_reverse_https",
+                   "trust_both", "trust_default", "trust_dir_only", "trust_file_only", "trust_file_and_dir",
+                   "trust_none_default_bundle", "trust_file_and_dir_differ", "public_default_bundle_root_server",
+                   "private_root_server", "unrelated_root_server", "public_root_server_dir_only",
+                   "public_root_rejected_trust_file", "public_root_rejected_trust_dir", "public_root_rejected_trust_both",
+                   "public_root_judged_default_bundle", "public_root_accepted_default_bundle",
+                   "private_root_rejected_default_bundle", "mode_regular", "mode_transparent", "mode_reverse_https",
                    "mode_reverse_tls", "mode_swp", "identity_ip", "identity_dns", "lazy", "eager", "tls12_origin",
                    "case_wildcard", "case_partial_prefix", "case_cn_only", "case_ip_match", "case_ip_as_dns",
                    "hello_segmented"]
@@ -100,7 +114,13 @@ def check(sc, obs):
     crash_in_rejection_path = False
     judged = 0
     probes["mode_" + mode] += 1
-    probes["trust_" + opts.get("trust", "file")] += 1
+    trust = opts.get("trust", "file")
+    trust = "default" if trust == "certifi" else trust
+    probes["trust_" + trust] += 1
+    probes[{"file": "trust_file_only", "dir": "trust_dir_only", "both": "trust_file_and_dir",
+            "default": "trust_none_default_bundle"}.get(trust, "trust_other")] += 1
+    if opts.get("trusted_file") is not None and opts.get("trusted_file") != opts.get("trusted_dir"):
+        probes["trust_file_and_dir_differ"] += 1
     probes[strategy] += 1
     tags = sc.get("tags", [])
     for i, fl in enumerate(sc.get("flows", [])):
@@ -132,6 +152,25 @@ def check(sc, obs):
             # the verdict's reason identifies the failure mode; the name case matters only for name mismatches
             key = {"reason": reason, "id": pki_a.identity_of(ident)[0],
                    "name_case": tag.get("name_case", "?") if reason == "name_mismatch" else "-"}
+            chain_kind = org["cert"].get("chain", "root")
+            root = "X" if chain_kind == "unknown_ca" else org["cert"].get("root", "A")
+            root_class = ("self_signed" if chain_kind == "self_signed" else
+                          "public_default_bundle" if root in pki_a.PUBLIC_ROOTS else
+                          "unrelated" if root == "X" else "private")
+            if reason == "unknown_ca":
+                # which anchors were configured and where the chain really leads tells trust-store mix-ups apart
+                key["trust"] = trust
+                key["chain_leads_to"] = root_class
+            probes[f"{root_class}_root_server"] += 1
+            if root_class == "public_default_bundle" and not insecure:
+                if trust == "default":
+                    probes["public_root_judged_default_bundle"] += 1
+                else:
+                    probes[f"public_root_rejected_trust_{trust}"] += 1
+                    if trust == "dir":
+                        probes["public_root_server_dir_only"] += 1
+            if root_class == "private" and trust == "default" and not insecure:
+                probes["private_root_rejected_default_bundle"] += 1
             if not good:
                 faults["bad_upstream_certificate"] += 1
             if not good and not insecure:
@@ -150,6 +189,8 @@ def check(sc, obs):
                     probes["insecure_bad_accepted"] += 1
                 else:
                     probes["good_accepted"] += 1
+                    if root_class == "public_default_bundle" and trust == "default" and c["hs"]:
+                        probes["public_root_accepted_default_bundle"] += 1
                 if not c["hs"] and not c["timeout"]:
                     errs = [_norm_err(d.get("error")) for n, d in obs.hooks.get(i, []) if n == "tls_failed_server"]
                     viol.append({"class": "handshake_failed_acceptable_cert",
